@@ -29,6 +29,8 @@ import (
 	"github.com/icon-project/goloop/service/contract"
 	"github.com/icon-project/goloop/service/platform/basic"
 	"github.com/icon-project/goloop/service/scoreresult"
+	"github.com/icon-project/goloop/service/state"
+	"github.com/icon-project/goloop/service/txresult"
 	"github.com/icon-project/goloop/service/transaction"
 	"github.com/icon-project/goloop/test"
 )
@@ -41,7 +43,8 @@ const (
 	c15Script2  = 6
 	c15BadCx    = 7 // contract-typed address without a contract account
 	c15Treasury = 8
-	c15NAcct    = 9
+	c15Contract = 9 // scripted, contract-typed address WITH a deployed, accepted contract
+	c15NAcct    = 10
 	c15NKey     = 2
 	c15GodBal   = "1000000000000000000000"
 )
@@ -98,13 +101,13 @@ func c15Init() {
 		}
 		return common.NewAccountAddress(b)
 	}
-	c15Addrs = append(c15Addrs, mk(false, 1), mk(false, 2), mk(true, 3), mk(false, 0x7e))
+	c15Addrs = append(c15Addrs, mk(false, 1), mk(false, 2), mk(true, 3), mk(false, 0x7e), mk(true, 9))
 }
 
 func c15IsScript(a module.Address) bool {
 	// account 4 is scripted too and has a key: value that PreValidate credits to it but a failing
 	// program never delivers lets it reach the out-of-balance branches of the fee code
-	return a.Equal(c15Addrs[c15Script1]) || a.Equal(c15Addrs[c15Script2]) || a.Equal(c15Addrs[c15Script0])
+	return a.Equal(c15Addrs[c15Script1]) || a.Equal(c15Addrs[c15Script2]) || a.Equal(c15Addrs[c15Script0]) || a.Equal(c15Addrs[c15Contract])
 }
 
 // ---- platform / contract manager wrappers
@@ -180,7 +183,7 @@ func c15Num(s string) (int64, string, bool) {
 
 // c15ParseProg parses ops separated by '.', up to ')' or end.
 //
-//	s<k>=<v>  e<t>  b<n>  t<n>  x<to>:<v>  y<to>:<v>  c<to>:<v>:<lim>(prog)  d<to>:<v>:<lim>(prog)  f<code>
+//	s<k>=<v>  g<nh>=<g>  e<t>  b<n>  t<n>  x<to>:<v>  y<to>:<v>  c<to>:<v>:<lim>(prog)  d<to>:<v>:<lim>(prog)  f<code>
 func c15ParseProg(s string) ([]c15Op, string, bool) {
 	var ops []c15Op
 	if s == "" || s[0] == ')' {
@@ -198,7 +201,7 @@ func c15ParseProg(s string) ([]c15Op, string, bool) {
 			if op.a, s, ok = c15Num(s); !ok {
 				return nil, s, false
 			}
-		case 's':
+		case 's', 'g':
 			if op.a, s, ok = c15Num(s); !ok || s == "" || s[0] != '=' {
 				return nil, s, false
 			}
@@ -280,6 +283,18 @@ func (h *c15Script) run(cc contract.CallContext) error {
 			}
 			if _, err := as.SetValue(c15Key(op.a), v); err != nil {
 				return err
+			}
+		case 'g':
+			// SetObjGraph of the account's current contract, as CallHandler.SetObjGraph does
+			as := cc.GetAccountState(self.ID())
+			if c := as.Contract(); c != nil {
+				var v []byte
+				if op.b != 0 {
+					v = big.NewInt(op.b).Bytes()
+				}
+				if err := as.SetObjGraph(c.CodeID(), true, int(op.a), v); err != nil {
+					return err
+				}
 			}
 		case 'e':
 			cc.OnEvent(self, [][]byte{[]byte("Ev(int)"), big.NewInt(op.a).Bytes()}, nil)
@@ -401,7 +416,38 @@ func c15GetEnv(cfg c15Cfg) *c15Env {
 	if err := service.FinalizeTransition(gtr, module.FinalizeNormalTransaction|module.FinalizePatchTransaction|module.FinalizeResult, false); err != nil {
 		panic(err)
 	}
-	e := &c15Env{cfg: cfg, dbase: dbase, chain: chain, plt: plt, cm: cm, genesis: gtr}
+	// account 9: a contract account with an accepted current contract (no API info), set up
+	// directly on the genesis state; the chain continues from the amended state hash
+	wss, err := service.NewWorldSnapshot(dbase, plt, gtr.Result(), nil)
+	if err != nil {
+		panic(err)
+	}
+	ws, err := state.WorldStateFromSnapshot(wss)
+	if err != nil {
+		panic(err)
+	}
+	as := ws.GetAccountState(c15Addrs[c15Contract].ID())
+	as.InitContractAccount(c15Addrs[c15God])
+	dtx := crypto.SHA3Sum256([]byte("verif-c16-deploy"))
+	if _, err := as.DeployContract([]byte("verif-c16-code"), state.JavaEE, state.CTAppJava, nil, dtx); err != nil {
+		panic(err)
+	}
+	if err := as.AcceptContract(dtx, dtx); err != nil {
+		panic(err)
+	}
+	wss2 := ws.GetSnapshot()
+	if err := wss2.Flush(); err != nil {
+		panic(err)
+	}
+	res2, err := service.VerifC16ResultWithState(gtr.Result(), wss2.StateHash())
+	if err != nil {
+		panic(err)
+	}
+	base, err := service.NewInitTransition(dbase, res2, nil, cm, nil, chain, logger, plt, service.NewTimestampChecker())
+	if err != nil {
+		panic(err)
+	}
+	e := &c15Env{cfg: cfg, dbase: dbase, chain: chain, plt: plt, cm: cm, genesis: base}
 	c15Envs[cfg] = e
 	return e
 }
@@ -472,13 +518,33 @@ type c15Runner struct {
 	txs    []c15Tx
 	bal    []*big.Int // balances at parent
 	stor   []string   // storage of the script accounts at parent
+	graph  string     // object graph of account 9 at parent
 }
 
 func c15NewRunner() Runner { return &c15Runner{} }
 
 type c15State struct {
-	bal  []*big.Int
-	stor []string
+	bal   []*big.Int
+	stor  []string
+	graph string // object graph of account 9, read from the database
+}
+
+func c15GraphOf(ws interface {
+	GetAccountSnapshot(id []byte) state.AccountSnapshot
+}) string {
+	as := ws.GetAccountSnapshot(c15Addrs[c15Contract].ID())
+	if as == nil || as.Contract() == nil {
+		return "nocontract"
+	}
+	nh, _, data, err := as.GetObjGraph(as.Contract().CodeID(), true)
+	if err != nil {
+		return "-"
+	}
+	v := "0"
+	if len(data) > 0 {
+		v = new(big.Int).SetBytes(data).String()
+	}
+	return fmt.Sprintf("%d/%s", nh, v)
 }
 
 func (r *c15Runner) read(tr module.Transition) c15State {
@@ -494,7 +560,7 @@ func (r *c15Runner) read(tr module.Transition) c15State {
 		} else {
 			s.bal = append(s.bal, as.GetBalance())
 		}
-		if a == c15Script0 || a == c15Script1 || a == c15Script2 {
+		if a == c15Script0 || a == c15Script1 || a == c15Script2 || a == c15Contract {
 			for k := int64(0); k < c15NKey; k++ {
 				v := "0"
 				if as != nil {
@@ -506,6 +572,7 @@ func (r *c15Runner) read(tr module.Transition) c15State {
 			}
 		}
 	}
+	s.graph = c15GraphOf(ws)
 	return s
 }
 
@@ -541,7 +608,7 @@ func (r *c15Runner) Step(t []string, o *Oracle) string {
 		r.parent = r.env.genesis
 		r.height = 0
 		st := r.read(r.parent)
-		r.bal, r.stor = st.bal, st.stor
+		r.bal, r.stor, r.graph = st.bal, st.stor, st.graph
 		o.Count(fmt.Sprintf("cfg-legacy-%d", v[5]))
 		if v[0] == 0 {
 			o.Count("cfg-price-0")
@@ -575,7 +642,7 @@ func (r *c15Runner) Step(t []string, o *Oracle) string {
 			tx.extra = t[7]
 			tx.inputBytes = int(n)
 			if t[1] == "c" {
-				if p, rest, ok := c15ParseProg(t[7]); !ok || rest != "" || !(to == c15Script0 || to == c15Script1 || to == c15Script2) {
+				if p, rest, ok := c15ParseProg(t[7]); !ok || rest != "" || !(to == c15Script0 || to == c15Script1 || to == c15Script2 || to == c15Contract) {
 					_ = p
 					return "bad-op"
 				}
@@ -633,7 +700,14 @@ func (r *c15Runner) exec(o *Oracle) string {
 	}
 	o.Count("block-executed")
 	after := r.read(tr)
-	before := c15State{r.bal, r.stor}
+	before := c15State{r.bal, r.stor, r.graph}
+	// the object graph as the transition's in-memory snapshot shows it must be what the database holds
+	memGraph := c15GraphOf(service.VerifC16WorldSnapshot(tr))
+	o.Check(memGraph == after.graph, "object-graph-in-memory-differs-from-stored",
+		"account 9: in-memory snapshot reads graph %s, reloaded from the database %s", memGraph, after.graph)
+	if after.graph != before.graph {
+		o.Count("object-graph-changed")
+	}
 	price := big.NewInt(r.env.cfg.price)
 
 	// receipts
@@ -656,7 +730,9 @@ func (r *c15Runner) exec(o *Oracle) string {
 		for li := rct.EventLogIterator(); li.Has(); li.Next() {
 			ev, _ := li.Get()
 			nlogs++
-			if idx := ev.Indexed(); len(idx) > 1 {
+			if idx := ev.Indexed(); len(idx) > 0 && string(idx[0]) == txresult.EventLogICXTransfer {
+				tags = append(tags, "1000")
+			} else if len(idx) > 1 {
 				tags = append(tags, new(big.Int).SetBytes(idx[1]).String())
 			}
 		}
@@ -753,6 +829,8 @@ func (r *c15Runner) exec(o *Oracle) string {
 			}
 			o.Check(strings.Join(after.stor, ",") == strings.Join(before.stor, ","), "storage-changed-without-successful-call",
 				"storage %v -> %v although no call succeeded", before.stor, after.stor)
+			o.Check(memGraph == before.graph && after.graph == before.graph, "object-graph-changed-without-successful-call",
+				"object graph %s -> %s (in memory %s) although no call succeeded", before.graph, after.graph, memGraph)
 		}
 	}
 	if len(txs) == 1 {
@@ -773,6 +851,8 @@ func (r *c15Runner) exec(o *Oracle) string {
 				o.Check(d(a).Cmp(want) == 0, "failed-tx-changes-more-than-fee", "failed tx (status %d): account %d changed by %s, expected %s", info.status, a, d(a), want)
 			}
 			o.Check(strings.Join(after.stor, ",") == strings.Join(before.stor, ","), "failed-tx-changes-storage", "failed tx (status %d): storage %v -> %v", info.status, before.stor, after.stor)
+			o.Check(memGraph == before.graph && after.graph == before.graph, "failed-tx-changes-object-graph",
+				"failed tx (status %d): object graph %s -> %s (in-memory snapshot %s)", info.status, before.graph, after.graph, memGraph)
 		} else if tx.kind != "c" && tx.from != tx.to && tx.from != c15Treasury && tx.to != c15Treasury {
 			o.Count("single-successful-transfer")
 			want := new(big.Int).Neg(new(big.Int).Add(fee, tx.value))
@@ -781,7 +861,7 @@ func (r *c15Runner) exec(o *Oracle) string {
 		}
 	}
 	r.parent = tr
-	r.bal, r.stor = after.bal, after.stor
+	r.bal, r.stor, r.graph = after.bal, after.stor, after.graph
 	bs := make([]string, len(after.bal))
 	for a, b := range after.bal {
 		if a == c15God {
@@ -791,7 +871,7 @@ func (r *c15Runner) exec(o *Oracle) string {
 			bs[a] = b.String()
 		}
 	}
-	return strings.Join(recs, ";") + "|" + strings.Join(bs, ",") + "|" + strings.Join(after.stor, ",")
+	return strings.Join(recs, ";") + "|" + strings.Join(bs, ",") + "|" + strings.Join(after.stor, ",") + "|" + memGraph
 }
 
 // ---- generator (shared by C15 and C16; bias selects the mix)
@@ -800,10 +880,12 @@ func c15GenProg(g *Gen, depth int, self int) string {
 	n := 1 + g.Intn(4)
 	var ops []string
 	other := func() int {
-		return []int{1, 2, 3, 4, c15Script1, c15Script2, c15BadCx, c15Treasury, 0}[g.Intn(9)]
+		return []int{1, 2, 3, 4, c15Script1, c15Script2, c15BadCx, c15Treasury, 0, c15Contract}[g.Intn(10)]
 	}
 	for i := 0; i < n; i++ {
 		switch c := g.Intn(100); {
+		case c < 6 || (c < 14 && self == c15Contract):
+			ops = append(ops, fmt.Sprintf("g%d=%d", g.Pick(0, 1, 2, 3), g.Pick(0, 1, 2, 77)))
 		case c < 18:
 			ops = append(ops, fmt.Sprintf("s%d=%d", g.Intn(c15NKey), g.Intn(4)))
 		case c < 32:
@@ -816,7 +898,7 @@ func c15GenProg(g *Gen, depth int, self int) string {
 			ops = append(ops, fmt.Sprintf("%c%d:%d", "xy"[g.Intn(2)], other(), g.Pick(0, 1, 2, 10, 1000)))
 		case c < 84:
 			if depth < 3 {
-				to := []int{c15Script0, c15Script1, c15Script2}[g.Intn(3)]
+				to := []int{c15Script0, c15Script1, c15Script2, c15Contract, c15Contract}[g.Intn(5)]
 				ops = append(ops, fmt.Sprintf("%c%d:%d:%d(%s)", "cd"[g.Intn(2)], to, g.Pick(0, 0, 1, 10), g.Pick(0, 0, 0, 20, 200), c15GenProg(g, depth+1, to)))
 			} else {
 				ops = append(ops, "e7")
@@ -909,6 +991,24 @@ func c15GenCase(g *Gen, failBias bool) {
 		g.Emit("exec")
 		known[4] = 0
 	}
+	if (failBias && g.Intn(3) == 0) || g.Intn(8) == 0 {
+		// directed: the deployed contract (account 9) gets an object graph, then a transaction
+		// overwrites it and fails (directly, or in a nested call whose failure is propagated or
+		// caught), then a successful transaction dirties the contract again
+		emit := func(prog string) {
+			nb := c15InputBytes("c", prog)
+			g.Emit("tx c 0 9 0 %d %d %s", dflt+input*int64(nb)+4*call+int64(g.Pick(40, 400)), nb, prog)
+			g.Emit("exec")
+		}
+		emit(fmt.Sprintf("g%d=%d", 1+g.Intn(3), 1+g.Intn(50)))
+		if g.Intn(3) == 0 {
+			emit("s1=1")
+		}
+		emit([]string{"g7=70.f1", "e1.g0=0.t100000", "s0=2.c9:0:0(g8=80.e2).f2", "d9:0:0(g9=90.f0).e3", "g7=71.x7:1", "c5:0:0(c9:0:0(g6=60).f1)"}[g.Intn(6)])
+		if g.Intn(2) == 0 {
+			emit([]string{"s0=3", "e4", "g0=0", "x1:0"}[g.Intn(4)])
+		}
+	}
 	nblocks := 2 + g.Intn(5)
 	for b := 0; b < nblocks; b++ {
 		if g.Intn(5) == 0 {
@@ -972,7 +1072,7 @@ func c15GenCase(g *Gen, failBias bool) {
 			case kind < 30:
 				k = "t"
 				if g.Intn(10) == 0 {
-					to = []int{c15BadCx, c15Treasury, c15Script1, from}[g.Intn(4)]
+					to = []int{c15BadCx, c15Treasury, c15Script1, from, c15Contract}[g.Intn(5)]
 				}
 			case kind < 42:
 				k = "m"
@@ -985,7 +1085,7 @@ func c15GenCase(g *Gen, failBias bool) {
 				to = c15BadCx
 			default:
 				k = "c"
-				to = []int{c15Script0, c15Script1, c15Script2}[g.Intn(3)]
+				to = []int{c15Script0, c15Script1, c15Script2, c15Contract, c15Contract}[g.Intn(5)]
 				extra = c15GenProg(g, 0, to)
 				if strings.Contains(extra, "b") {
 					// a BTP message of an unknown network would abort the whole block when the
